@@ -5,6 +5,8 @@ CONSTANTS
   MaxFaults = 1
   Batches = 2
   Mutants = {"short_stream"}
+  MutMaxN = 4
+  MutShapes = {"scatter", "gather"}
 INIT Init
 NEXT Next
 INVARIANT NoPartial2
